@@ -712,6 +712,10 @@ impl WorldB {
                         obs.violate("C05", "token-never-presented-from-this-address", "addr", format!("id {} addr {}", id, addr));
                     } else if presented_here.iter().all(|ms| ms / 1000 >= tok.expire_ts) {
                         obs.violate("C05", "connected-with-expired-token", "expiry", format!("id {} expire {}", id, tok.expire_ts));
+                    } else if by_trigger.is_some() && self.sv_ms / 1000 > tok.expire_ts + 1 {
+                        // half-open entries are dropped by the first update after their token's expiry and requests are refused
+                        // from the expiry second on: nothing presented in time can still be completed now
+                        obs.violate("C05", "connected-with-expired-token", "half-open-entry-after-expiry", format!("id {} expire {} now {}", id, tok.expire_ts, self.sv_ms / 1000));
                     }
                     if let Some(first) = tok.first_addr {
                         if first != addr {
